@@ -92,4 +92,18 @@ mod verif_c13_wit {
         assert!(!routes.is_empty() && routes.len() <= 2, "between one and k = 2 routes, found {} : {:?}", routes.len(), routes);
         for i in 0..routes.len() { for j in 0..i { assert_ne!(routes[i], routes[j], "no two routes have the same edge sequence: {:?}", routes); } }
     }
+
+    /// Yen's, k = 2: least-cost route 0->1->2->3; the only way on from spur vertex 1 once 1->2 is cut leads BACK through the origin
+    /// (1->0, 0->3).  Property: every route is loop-free -- the looping candidate 0->1->0->3 must not be returned.
+    #[test]
+    fn c13_wit_yen_routes_are_loop_free() {
+        let g = W::graph(4, &[(0, 1, 1.0), (1, 2, 1.0), (2, 3, 1.0), (1, 0, 1.0), (0, 3, 10.0)]);
+        let src_of = [0usize, 1, 2, 1, 0];
+        let routes = yen(g, 0, 3, 2).expect("an answerable query is not turned into an error");
+        assert_eq!(routes[0], vec![0, 1, 2]);
+        for r in routes.iter() {
+            let mut seen = std::collections::HashSet::new();
+            for e in r.iter() { assert!(seen.insert(src_of[*e]), "route {:?} leaves vertex {} twice: it contains a loop", r, src_of[*e]); }
+        }
+    }
 }
